@@ -267,6 +267,13 @@ def state_snapshot():
         globs["env.files"] = digest(sorted(_farm.sandbox_listing().items()))
         globs["env.os.environ"] = digest(sorted(_farm.sandbox_environ().items()))
         globs["env.cwd"] = os.path.relpath(os.getcwd(), _farm.SANDBOX) if _farm.SANDBOX else ""
+        import locale as _locale
+        import logging as _logging
+
+        globs["env.interpreter"] = digest([sys.getrecursionlimit(), list(_locale.getlocale()), _logging.root.level, _logging.root.manager.disable,
+                                           sorted(n for n, lg in _logging.root.manager.loggerDict.items()
+                                                  if n.startswith("pyrepseq") and getattr(lg, "level", 0)),
+                                           sys.getswitchinterval(), bool(sys.gettrace()), sys.getdefaultencoding()])
         import matplotlib.pyplot as _plt
 
         globs["env.pyplot.open_figures"] = len(_plt.get_fignums())
